@@ -84,10 +84,8 @@ SdWritten == SelectSeq(sds, LAMBDA e : e.writer \in {"SD", "NC"})
 
 \* ---- rasters ----
 \* opts: <<compression, palette seed or 0, interlace>>
-\* known findings: GR returns legacy 24-bit images stored line/plane interlaced unconverted; the legacy readers stop at
-\* a raster group written by GR
-ClearRas(w, il) == /\ (w = "DF24") => il = 0
-                   /\ \A i \in 1..Len(ras) : (ras[i].writer = "GR") = (w = "GR")
+\* known finding: GR returns legacy 24-bit images stored line/plane interlaced unconverted
+ClearRas(w, il) == (w = "DF24") => il = 0
 WriteRas(w, dims, ncomp, comp, pal, il) ==
     /\ st = "ready" /\ nk < MaxObjs
     /\ Mix \/ ClearRas(w, il)
